@@ -27,7 +27,11 @@ func (w *randomWorkload) SetQuiet() { w.quiet = true }
 func (w *oracleWorkload) SetQuiet() { w.quiet = true }
 
 // extraWorkloads lets module files register their workload constructors (htlc, farm, service, token …).
-var extraWorkloads []func() Workload
+var extraWorkloads = []func() Workload{
+	func() Workload { return newHTLCWorkload() },
+	func() Workload { return newFarmWorkload() },
+	func() Workload { return newServiceWorkload() },
+}
 
 func allWorkloads() []Workload {
 	ws := []Workload{newCoinswapWorkload(), newNFTWorkload(), newMTWorkload(), newRecordWorkload(), newRandomWorkload(), newOracleWorkload(), newPricedCallWorkload()}
